@@ -227,13 +227,16 @@ def showKill : Except KillErr KillCmd → String
 
 def hasSub (s pat : String) : Bool := (s.splitOn pat).length > 1
 
+def byDesign (o : String) : Bool :=
+  hasSub o "portable=1" || o.startsWith "err:nonPortable" || o.startsWith "err:unseparated"
+
 /-- observation, then: `ok` if the separated spelling gives the same; `-` if they differ while the
     `portable` option is (or is being turned) on — there the attached / long forms are rejected by
     design; `FAIL` otherwise -/
 def specCompare (portable : Bool) (a b : String) : String :=
   let verdict :=
     if a = b then "ok"
-    else if portable || hasSub a "portable=1" || hasSub b "portable=1" then "-"
+    else if portable || byDesign a || byDesign b then "-"
     else s!"FAIL:separated-spelling-gives {b}"
   a ++ "\t" ++ verdict
 
